@@ -97,6 +97,12 @@ def failures(P, R, ld):
         loads = [t for t in dep.stores() if (t.ev.get('rhs') or {}).get('callee') == 'module_load' and is_var(t.ev.get('lhs'))]
         for ls in loads:
             ov = ls.ev['lhs']['name']
+            ovs = {ov}
+            for t in dep.sites():
+                if t.ev['k'] == 'store' and is_var(t.ev.get('lhs')) and is_var(t.ev.get('rhs')) and t.ev['rhs']['name'] in ovs:
+                    ovs.add(t.ev['lhs']['name'])
+                if t.ev['k'] == 'decl' and is_var(t.ev.get('init')) and t.ev['init']['name'] in ovs:
+                    ovs.add(t.ev['var'])
 
             def on_event(st, t, ls=ls):
                 if t.key == ls.key:
@@ -105,9 +111,9 @@ def failures(P, R, ld):
                     return None          # the process ends here
                 return st
 
-            def on_edge(st, e, ov=ov):
+            def on_edge(st, e, ov=ov, ovs=ovs):
                 r = rules.edge_rel(e)
-                if r and is_var(r[0], ov) and const_of(r[2]) == 0 and st == 'loaded?':
+                if r and is_var(r[0]) and r[0]['name'] in ovs and const_of(r[2]) == 0 and st == 'loaded?':
                     return 'null' if r[1] == '==' else 'ok'
                 return st
             before, _, _, _ = dep.forward('pre', on_event, on_edge)
